@@ -67,8 +67,9 @@ func c05(p *core.Program, r *core.Report) {
 	r.Rule("R2", "record layout agreement: per op class, the constant byte ranges and widths the writer stores through binary.LittleEndian.PutUintNN(buf[a:b], ..) equal those the reader loads with UintNN(data[a:b]); the checksum slot and its covered prefix agree; size() and encodeSize() agree on each class's fixed header size (roaring payload length added only by size())")
 	r.Rule("R3", "live/replay mutator agreement: for each op type, the direct mutator the live API applies when it logs that op is the one op.apply runs on replay; replayed roaring ops pass log=false and the clear flag of their type")
 	r.Rule("R4", "log what changed: a batch op's values are the mutated slice truncated by the direct mutator's own changed count; a roaring op's opN is the accumulated changed count")
-	r.Rule("R5", "counter plumbing: writeOp and the replay loop both add op.count() to opN and 1 to ops per op")
+	r.Rule("R5", "counter plumbing: writeOp and the replay loop both add op.count() to opN and 1 to ops per op, and Bitmap.UnmarshalBinary sets both counters to zero before the replay")
 	r.Rule("R6", "the decoder accepts what the writer logs: in op.UnmarshalBinary no condition reads op.value on a path where the type can still be opTypeAdd or opTypeRemove (there the slot is a bit position and every uint64 is valid); the set of possible types is tracked through tests of op.typ and switch cases")
+	r.Rule("R7", "a zero op per record: in every loop that calls op.UnmarshalBinary, the op it fills is declared inside the loop body or assigned its zero value before the call in that iteration")
 	r.NotDecided = "history-dependent equivalence of snapshot+log replay with the live bitmap for all interleavings; checksum arithmetic"
 	rp := p.Pkg("roaring")
 	if rp == nil {
@@ -152,6 +153,28 @@ func c05(p *core.Program, r *core.Report) {
 	// ---- R3
 	c05Replay(p, r, rp, consts)
 	c05SingleValueFree(p, r, rp, consts)
+	c05FreshOpPerRecord(p, r, rp)
+	// R5, second half: the decoder starts both counters from zero
+	if fd := core.FuncDecl(rp, "Bitmap", "UnmarshalBinary"); fd != nil {
+		reset := map[string]bool{}
+		ast.Inspect(fd.Body, func(n ast.Node) bool {
+			if as, ok := n.(*ast.AssignStmt); ok && len(as.Lhs) == len(as.Rhs) {
+				for i, l := range as.Lhs {
+					for _, f := range []string{"opN", "ops"} {
+						if _, ok := core.FieldSel(info, l, roaringPath, "Bitmap", f); ok {
+							if v, ok := c04ConstInt(info, as.Rhs[i]); ok && v == 0 {
+								reset[f] = true
+							}
+						}
+					}
+				}
+			}
+			return true
+		})
+		r.Check(reset["opN"] && reset["ops"], "R5", "(*Bitmap).UnmarshalBinary resets the counters", p.Pos(fd.Pos()), "opN and ops both start from zero", fmt.Sprintf("the decoder adds the replayed ops to whatever the bitmap counted before (opN reset: %v, ops reset: %v): a bitmap that is decoded again, as a fragment does when it re-reads its file, reports counters that are not those of the file", reset["opN"], reset["ops"]))
+	} else {
+		r.Undecide("R5", "(*Bitmap).UnmarshalBinary resets the counters", "", "not found")
+	}
 
 	// ---- R4
 	for _, name := range []string{"AddN", "RemoveN"} {
